@@ -210,33 +210,60 @@ def run(ctx):
                              f"`{ast.unparse(h).splitlines()[0]}` covers `{drives}` (script code runs there) and raises {raised or 'another exception'} instead: "
                              "the exception the script raised is replaced (Python propagates it unchanged)", rel="eval.py", node=h)
 
-    # R01.9 what the scope restore does with each saved / unsaved name ----------------------------------------
-    ctx.rule("R01.9", "comprehension scope restore: a name bound before the comprehension gets exactly its saved value back (also None, 0, ''), "
-                      "a name that was unbound is unbound again, other names are untouched", floor=5)
-    unit = "eval.py::AstEval.loopvar_scope_restore"
-    fn = program.func(unit)
+    # R01.9 what a comprehension leaves of the enclosing scope's variable of the same name ---------------------------------------------
+    ctx.rule("R01.9", "comprehension scope: after save -> (the loop assigns its variable) -> restore, a name bound before the comprehension has exactly its value back "
+                      "(also None, 0, ''; also when it lives in a closure cell, whose content must be restored too), a name that was unbound is unbound again, other names are untouched", floor=6)
+    save_u, rest_u = "eval.py::AstEval.loopvar_scope_save", "eval.py::AstEval.loopvar_scope_restore"
+    fn = program.func(rest_u)
+    cellx = ObjV("cell_x", "EvalLocalVar")
     cases = [
-        ("outer value", [("x", Sym("outer"))], [("x", Sym("loop")), ("y", Sym("other"))], {"x": Sym("outer"), "y": Sym("other")}),
-        ("outer value None", [("x", NONE)], [("x", Sym("loop"))], {"x": NONE}),
-        ("outer value 0", [("x", Const(0))], [("x", Sym("loop"))], {"x": Const(0)}),
-        ("outer value ''", [("x", Const(""))], [("x", Sym("loop"))], {"x": Const("")}),
-        ("unbound before, bound by the loop", [], [("x", Sym("loop")), ("y", Sym("other"))], {"y": Sym("other")}),
-        ("unbound before, empty iterable", [], [("y", Sym("other"))], {"y": Sym("other")}),
+        ("outer value", {"x": Const("outer value"), "y": Sym("other")}, None),
+        ("outer value None", {"x": NONE}, None), ("outer value 0", {"x": Const(0)}, None), ("outer value ''", {"x": Const("")}, None),
+        ("unbound before", {"y": Sym("other")}, None),
+        ("outer variable in a closure cell", {"x": cellx, "y": Sym("other")}, (True, Const("outer value"))),
+        ("outer variable in a closure cell, not bound yet", {"x": cellx}, (False, None)),
     ]
-    for label, saved, table, want in cases:
-        heap = dict(MODULE_SCOPE)
-        heap["self.sym_table"] = DictV(tuple((Const(k), v) for k, v in table))
-        out = run_handler(program, ListV((Const("x"),), "set"), HandlerPolicy(program, opaque_methods=()), method="loopvar_scope_restore",
-                          extra_args=[DictV(tuple((Const(k), v) for k, v in saved))], heap=heap)
+    from ..flow import FlowPolicy, exits, run_flow
+    for label, table, cell_state in cases:
+        heap = {"self.sym_table": DictV(tuple((Const(k), v) for k, v in table.items()))}
+        if cell_state is not None:
+            heap["cell_x.defined"] = Const(cell_state[0])
+            heap["cell_x.name"] = Const("x")
+            if cell_state[0]:
+                heap["cell_x.value"] = cell_state[1]
+
+        def get_names(i, n, a, k, c, o):
+            # the static scan of the generator targets finds the loop variable x (the scan itself is checked by R03.14)
+            return [(c.set("lvars", ListV((Const("x"),), "set")), NONE)]
+
+        pol = FlowPolicy(program, may_raise_all=False, cancel=False, summaries={"self.get_names": get_names}, inline={"EvalLocalVar.is_defined", "EvalLocalVar.set", "EvalLocalVar.set_undefined"},
+                         globals_={"EvalLocalVar": ClassV("EvalLocalVar")})
+        pol.loop_unroll = 4
+        gens = ListV((NodeV("comprehension", {"target": NodeV("Name", {"id": Const("x")}, "g.target")}, "g"),), "list")
+        o1 = run_flow(program, save_u, pol, args={"self": ObjV("self", "AstEval"), "generators": gens}, heap=heap)
         got = []
-        for kind in ("return", "raise", "normal"):
-            for c in out.get(kind):
-                tab = c.heap.get("self.sym_table")
-                got.append((kind if kind != "normal" else "return",
-                            {k.v: v for k, v in tab.items} if isinstance(tab, DictV) else repr(tab)))
-        good = bool(got) and all(kind == "return" and tab == want for kind, tab in got)
-        ctx.check(good, "R01.9", unit, f"restore with {label}",
-                  msg=f"restoring loop variable x ({label}): scope afterwards is {got}, Python leaves {want}",
+        for k1, c1, d1 in exits(o1):
+            ret = c1.env.get("$ret")
+            if k1 != "return" or not (isinstance(ret, ListV) and len(ret.items) == 2):
+                got.append((f"save: {d1}", repr(ret)))
+                continue
+            h2 = dict(c1.heap)
+            # the loop binds its variable: through the cell when the scope holds one, else in the scope dictionary (recurse_assign, checked by R03.9)
+            tab = h2["self.sym_table"]
+            if tab.get(Const("x")) == cellx:
+                h2["cell_x.value"], h2["cell_x.defined"] = Sym("loop"), Const(True)
+            else:
+                h2["self.sym_table"] = tab.set(Const("x"), Sym("loop"))
+            o2 = run_flow(program, rest_u, pol, args={"self": ObjV("self", "AstEval"), "var_names": ret.items[0], "save_vars": ret.items[1]}, heap=h2)
+            for k2, c2, d2 in exits(o2):
+                t2 = c2.heap.get("self.sym_table")
+                state = {kk.v: vv for kk, vv in t2.items} if isinstance(t2, DictV) else repr(t2)
+                cs = (c2.heap.get("cell_x.defined") == Const(True), c2.heap.get("cell_x.value") if c2.heap.get("cell_x.defined") == Const(True) else None) if cell_state is not None else None
+                got.append((k2, state, cs))
+        want = ("return", dict(table), cell_state)
+        good = bool(got) and all(g == want for g in got)
+        ctx.check(good, "R01.9", rest_u, f"comprehension over x, {label}",
+                  msg=f"comprehension whose loop variable is x ({label}): afterwards (exit, scope, cell content) = {got}, Python leaves {want}",
                   key=f"restore:{label}", node=fn, rel="eval.py")
 
     return (
